@@ -251,7 +251,13 @@ func harnessLock(lines []string) bool {
 		if strings.HasPrefix(l, "sync.") || strings.HasPrefix(l, "runtime.") || strings.HasPrefix(l, "internal/") {
 			continue
 		}
-		return strings.Contains(l, "verifharness/") && !strings.Contains(l, "github.com/dapr/kit/")
+		// only the harness's own bookkeeping locks: the recorder of a check and the scheduler / trace libraries. A harness
+		// callback that waits on a mutex of the code under test (a job behind DelayIfStillRunning's mutex, inlined into a
+		// harness closure) is genuinely blocked.
+		if !strings.Contains(l, "verifharness/") || strings.Contains(l, "github.com/dapr/kit/") {
+			return false
+		}
+		return strings.Contains(l, "verifharness/internal/") || strings.Contains(l, "(*recorder)") || strings.Contains(l, "(*lockedBatch)") || strings.Contains(l, "(*hist)")
 	}
 	return false
 }
